@@ -19,6 +19,8 @@ type Config struct {
 	Str func(t *rapid.T, role string) string
 	// PluginSrc generates plugin sources; nil means plug.Gen (documented forms).
 	PluginSrc func(t *rapid.T) string
+	// OddSkip: an adjustment's `skip` may be a list or a mapping (C04 only).
+	OddSkip bool
 	// CacheDisabledKey: mapping-form caches may carry a `disabled:` key (C04 only).
 	CacheDisabledKey bool
 	// UniqueAnchors: never define an anchor name twice (default: one anchor in six reuses a name).
@@ -55,6 +57,9 @@ type G struct {
 	// definition before it): latest[name] is the node an alias *name written now would reach
 	latest map[string]*yaml.Node
 	names  []string
+	// keyAnchors: anchored scalars whose values are ordinary key names; a later mapping may write such a
+	// key as an alias (`*k1 : value`)
+	keyAnchors []*yaml.Node
 	Feat   map[string]int
 	// Canon maps every generated plugin source to the canonical form the
 	// documented rule prescribes (from its structured form).
@@ -315,6 +320,13 @@ type ent struct {
 func (g *G) keyNode(e ent) *yaml.Node {
 	if e.raw {
 		return Plain(e.key)
+	}
+	// a key written as an alias to an anchored scalar of the same text
+	for _, a := range g.live(g.keyAnchors) {
+		if a.Value == e.key && g.coin("aliaskey", 2) {
+			g.feat("alias-as-mapping-key")
+			return AliasNode(a)
+		}
 	}
 	st := yaml.Style(0)
 	switch g.intn("kstyle", 0, 7) {
@@ -588,6 +600,25 @@ func (g *G) Pipeline() *yaml.Node {
 			plan = append(plan, ent{key: name, gen: func() *yaml.Node { return g.template() }})
 		}
 	}
+	if g.C.Anchors && g.coin("keyanchors", 3) {
+		used["x-keys"] = true
+		plan = append(plan, ent{key: "x-keys", gen: func() *yaml.Node {
+			l := SeqNode(true)
+			seen := map[string]bool{}
+			for i, c := 0, g.intn("nkeyanchors", 1, 4); i < c; i++ {
+				k := pick(g, "keyanchor", realisticKeys)
+				if seen[k] {
+					continue
+				}
+				seen[k] = true
+				n := g.strNode(k)
+				g.setAnchor(n)
+				g.keyAnchors = append(g.keyAnchors, n)
+				l.Content = append(l.Content, n)
+			}
+			return l
+		}})
+	}
 	var rest []ent
 	stepsForm := g.intn("stepsform", 0, 11)
 	rest = append(rest, ent{key: "steps", gen: func() *yaml.Node {
@@ -649,6 +680,12 @@ func (g *G) steps(depth int, nonEmpty bool) *yaml.Node {
 	if nonEmpty {
 		lo = 1
 	}
+	// a whole list of steps may be an alias of an earlier one (a group re-using another group's list,
+	// `steps: *tests`); the earlier list has at least one step, whatever is required here
+	if a := g.alias("steps"); a != nil {
+		g.feat("alias:steps-list")
+		return a
+	}
 	cnt := g.intn("nsteps", lo, g.C.MaxSteps)
 	n := SeqNode(false)
 	if cnt == 0 {
@@ -656,6 +693,9 @@ func (g *G) steps(depth int, nonEmpty bool) *yaml.Node {
 	}
 	for i := 0; i < cnt; i++ {
 		n.Content = append(n.Content, g.Step(depth))
+	}
+	if cnt > 0 {
+		g.register(n, "steps")
 	}
 	return n
 }
@@ -1135,7 +1175,24 @@ func (g *G) matrix() *yaml.Node {
 							return g.mapping("", wp)
 						}})
 					}
-					switch g.intn("skip", 0, 4) {
+					skipForm := g.intn("skip", 0, 4)
+					if g.C.OddSkip && g.coin("oddskip", 4) {
+						// `skip` holds whatever was written: a list or a mapping is legal (and truthy)
+						au["skip"] = true
+						ap = append(ap, ent{key: "skip", gen: func() *yaml.Node {
+							if g.coin("skipmap", 2) {
+								return g.AnyMap(2, g.intn("skipmapn", 1, 3))
+							}
+							l := SeqNode(g.coin("flow", 2))
+							for i, c := 0, g.intn("skiplistn", 1, 3); i < c; i++ {
+								l.Content = append(l.Content, g.Any(2))
+							}
+							return l
+						}})
+						g.feat("adj-skip-collection")
+						skipForm = 4
+					}
+					switch skipForm {
 					case 0:
 						au["skip"] = true
 						ap = append(ap, ent{key: "skip", gen: func() *yaml.Node { return Plain(pick(g, "skipbool", []string{"true", "false"})) }})
@@ -1238,7 +1295,13 @@ func (g *G) signatureBlock() *yaml.Node {
 		fields.Content = append(fields.Content, g.str("sigfield"))
 	}
 	plan := []ent{
-		{key: "algorithm", gen: func() *yaml.Node { return g.str("sigalg") }},
+		{key: "algorithm", gen: func() *yaml.Node {
+			// the name of a real algorithm half the time: a block left behind by an earlier signing run
+			if g.coin("realalg", 2) {
+				return g.strNode(pick(g, "sigalgname", []string{"EdDSA", "ES512", "PS512", "ES256", "HS512"}))
+			}
+			return g.str("sigalg")
+		}},
 		{key: "signed_fields", gen: func() *yaml.Node { return fields }},
 		{key: "value", gen: func() *yaml.Node { return g.str("sigvalue") }},
 	}
